@@ -3,7 +3,8 @@
 From Coq Require Import List NArith ZArith QArith Bool String.
 From Qryn Require Import model.TqSql model.Traceql model.TraceqlPlan model.TraceqlSem model.TraceqlCase
      proofs.TraceqlAnalyzeProofs proofs.TraceqlEvalProofs proofs.TraceqlSelectorProofs
-     model.TraceqlPortions proofs.TraceqlPortionsProofs proofs.TraceqlIndexSearchProofs proofs.TraceqlCorrectProofs proofs.TraceqlAggProofs.
+     model.TraceqlPortions proofs.TraceqlPortionsProofs proofs.TraceqlIndexSearchProofs proofs.TraceqlCorrectProofs proofs.TraceqlAggProofs
+     proofs.TraceqlChainSem proofs.TraceqlChainProofs proofs.TraceqlChainPlan.
 From Coq Require Import Sorted Lia.
 Import ListNotations.
 Open Scope string_scope.
@@ -188,4 +189,32 @@ Proof.
     change (index_rows_g re_toy float_toy hash_toy) with index_rows.
     destruct (index_rows c0 d101 _) as [res|] eqn:Er; [|vm_compute in Er; discriminate].
     exists res. split; [reflexivity|]. split; [reflexivity|]. vm_compute in Er. injection Er as <-. split; vm_compute; reflexivity.
+Qed.
+
+(* traceql_correct_chain: its hypotheses hold of the chain  {.a = "b"} && {span.n > 5} || {.n < 2} | count() > 0  over the database of
+   single_hyps, limit 1: the planner's tree is ||[&&[A, B], C] (statement fuel 6 <= 13), and the conclusion computed with the toy library
+   functions: t1 passes the && (its span s1 carries a = "b" and n = 7; the a = "b" span of t2 lies outside the window), t3 passes the
+   right-hand side (n = 1); the limit keeps the newer one, t3.  With limit 0 both, t1 with the union of its matched spans. *)
+Definition eN : attr_exp := AExp (HTerm (T "span.n" CGt (vnum "5"))) AONone None.
+Definition eM : attr_exp := AExp (HTerm (T ".n" CLt (vnum "2"))) AONone None.
+Definition ag_pos : aggregator := {| g_fn := AgCount; g_attr := ""; g_cmp := CGt; g_num := "0"; g_meas := ""; g_ffmt := None; g_durf := None |}.
+Definition q3 : script :=
+  Script {| sel_attr := Some e3; sel_agg := None |} AOAnd
+    (Some (Script {| sel_attr := Some eN; sel_agg := None |} AOOr
+       (Some (Script {| sel_attr := Some eM; sel_agg := Some ag_pos |} AONone None)))).
+Definition c0all : ctx :=
+  {| from_ns := 0; to_ns := 10; from_date := "d"; to_date := "d"; ffd_from := "d"; ffd_to := "d";
+     limit := 0; is_cluster := false; rf_max := 0; rf_i := 0; cached := [];
+     attrs_table := "t"; attrs_dist_table := "td"; traces_table := "tr"; traces_dist_table := "trd"; kv_dist_table := "kv" |}.
+Example chain_hyps :
+  chain_ok q3 /\ sc_tail q3 <> None /\ chain_need q3 = 6%nat
+  /\ (exists s, plan q3 MSearch c0 1 = Ok s /\ index_rows c0 d0 s = Some [("t3", ["s1"])]
+                /\ result_ok c0 (traceql_sem re_toy float_toy false c0 d0 q3) [("t3", ["s1"])] = true)
+  /\ (exists s, plan q3 MSearch c0all 1 = Ok s /\ index_rows c0all d0 s = Some [("t1", ["s1"]); ("t3", ["s1"])]).
+Proof.
+  split; [apply chain_ok_b_sound; vm_compute; reflexivity|]. split; [discriminate|]. split; [vm_compute; reflexivity|]. split.
+  - destruct (plan q3 MSearch c0 1) as [s| |] eqn:E; [|vm_compute in E; discriminate|vm_compute in E; discriminate].
+    exists s. split; [reflexivity|]. vm_compute in E. injection E as <-. vm_compute. split; reflexivity.
+  - destruct (plan q3 MSearch c0all 1) as [s| |] eqn:E; [|vm_compute in E; discriminate|vm_compute in E; discriminate].
+    exists s. split; [reflexivity|]. vm_compute in E. injection E as <-. vm_compute. reflexivity.
 Qed.
